@@ -3,7 +3,7 @@
    Fxp(val, raw=True)).  max, min, sort, clip, transpose, diagonal keep the operand's format and
    only select / rearrange codes (checked by the correspondence run). *)
 From Coq Require Import ZArith List Bool Lia.
-From FxpVerif Require Import Spec SpecArith NP Store ProofsCore Arith Reduce ProofsReduce ProofsCumprod.
+From FxpVerif Require Import Spec SpecArith NP Store ProofsCore ProofsStore ProofsArith Arith Reduce ProofsReduce ProofsCumprod ProofsReduceInto.
 Import ListNotations.
 Open Scope Z_scope.
 
@@ -85,6 +85,38 @@ Theorem C15_trace_exact : forall f d r o, 1 <= nw f -> (1 <= length d)%nat ->
 Proof. intros f d r o Hw Hn Hr. apply fxp_sum_exact_any; try assumption; lia. Qed.
 Print Assumptions C15_trace_exact.
 
+(* sum / prod INTO a caller-chosen format with fewer fraction bits than the exact result has (out=, a sizing policy: the raw method), when
+   the accumulated code needs more than 53 bits: the exact sum (product) is quantized ONCE into the target format by the target's
+   rounding and overflow modes, with the Spec's flags - for every word length of the operand and of the target and any number of
+   elements.  (The other branches of the same model - a non-negative shift, codes of at most 53 bits - are compared with the
+   implementation on every run: stratum F of the check.) *)
+Theorem C15_sum_into_fewer_fraction_bits : forall f total l ft r o,
+  1 <= nw f -> 1 <= total -> Z.of_nat (length l) <= total -> Forall (in_range f) l ->
+  1 <= nw ft -> nf ft - nf f < 0 -> 2^53 <= Z.abs (zsum l) ->
+  fxp_sum_into f total l ft r o = Ok (spec_wres ft r o [ {| dm := zsum l; de := - nf f |} ]).
+Proof. exact sum_into_fewer_fraction_bits. Qed.
+Print Assumptions C15_sum_into_fewer_fraction_bits.
+Theorem C15_prod_into_fewer_fraction_bits : forall f l ft r o,
+  1 <= nw f -> (1 <= length l)%nat -> Forall (in_range f) l ->
+  1 <= nw ft -> nf ft - Z.of_nat (length l) * nf f < 0 -> 2^53 <= Z.abs (zprod l) ->
+  fxp_prod_into f (Z.of_nat (length l)) l ft r o = Ok (spec_wres ft r o [ {| dm := zprod l; de := - (Z.of_nat (length l) * nf f) |} ]).
+Proof. exact prod_into_fewer_fraction_bits. Qed.
+Print Assumptions C15_prod_into_fewer_fraction_bits.
+(* sum INTO a format with at least as many fraction bits (signed operand, target n_frac below 64): the exact code zsum l * 2^k is stored
+   raw - kept when the target holds it, clamped or wrapped otherwise - with exactly the overflow / underflow flags of that code
+   ([int_wres]: w_codes = map (overflow o ft), w_ovf / w_unf = some code above cmax / below cmin), whatever its size *)
+Theorem C15_sum_into_more_fraction_bits : forall f total l ft r o,
+  sg f = true -> 1 <= nw f -> 1 <= total -> Z.of_nat (length l) <= total -> Forall (in_range f) l ->
+  1 <= nw ft -> 0 <= nf ft - nf f -> nf ft < 64 ->
+  exists w, fxp_sum_into f total l ft r o = Ok w /\ int_wres ft o [zsum l * 2^(nf ft - nf f)] w.
+Proof. exact sum_into_more_fraction_bits. Qed.
+Print Assumptions C15_sum_into_more_fraction_bits.
+Example C15_into_nonvacuous :
+  let f := {| sg := true; nw := 60; nf := 8 |} in let ft := {| sg := true; nw := 64; nf := 2 |} in
+  let l := [2^58 + 5; 2^58 + 77; -3] in
+  (2^53 <=? Z.abs (zsum l)) = true /\ forallb (fun c => (cmin f <=? c) && (c <=? cmax f)) l = true /\
+  w_codes (match fxp_sum_into f 3 l ft Around Saturate with Ok w => w | _ => {| w_codes := []; w_ovf := false; w_unf := false; w_inacc := false |} end) = [(2^59 + 79 + 32) / 64].
+Proof. vm_compute. repeat split; reflexivity. Qed.
 (* PARTIAL: max, min, sort, clip, transpose and diagonal (selections and permutations of the codes) and the accumulating functions
    writing into a caller-chosen format (out= / out_like=) are not stated as theorems; they are covered by the correspondence run. *)
 Example C15_nonvacuous :
